@@ -8,7 +8,7 @@
      enc_inv   deciphering inverts ciphering           (C07: c07_cipher_involutive, okp p := |p| < 536870909)
    and C07 (c07_nas_encrypt_is_spec, c07_nas_mac_is_spec) identifies nas_encrypt / nas_mac with 128-NEAx / 128-NIAx. *)
 From Coq Require Import NArith List Bool.
-Require Import Bytes Count NasSec RefNasPeer Security NasSecInst CountProofs NasSecProofs.
+Require Import Bytes Count NasSec RefNasPeer Security NasSecInst CountProofs NasSecProofs NasSecC07.
 Import ListNotations.
 Open Scope N_scope.
 
@@ -137,6 +137,20 @@ Theorem c06_receiver_recovers_history :
       = (ul_accepts next ops, snd (ul_history enc mac ctx next ops)).
 Proof. exact ul_history_received. Qed.
 Print Assumptions c06_receiver_recovers_history.
+
+(* the same for the algorithms the Go code calls (Model/Security.v), the two hypotheses discharged by C07
+   (c07_mac_length = nas_mac_len4, c07_cipher_involutive = nas_encrypt_involutive): any 16-octet ciphering key,
+   NEA0/1/2, NIA1/2, plain messages shorter than 2^29-3 octets *)
+Theorem c06_receiver_recovers_history_go :
+  forall ctx, key_ok (c_kenc ctx) = true -> c_ea ctx <= 2 -> c_ia ctx = 1 \/ c_ia ctx = 2 ->
+    forall (ops:ul_ops) next,
+      next < 16777216 -> Forall hdr_ok ops -> Forall (plain_ok_op short_enough) ops ->
+      all_some (fst (ul_history nas_encrypt nas_mac ctx next ops)) ->
+      ul_receive_history nas_encrypt nas_mac ctx next
+        (combine (map unsome (fst (ul_history nas_encrypt nas_mac ctx next ops))) (map (fun o => snd o) ops))
+      = (ul_accepts next ops, snd (ul_history nas_encrypt nas_mac ctx next ops)).
+Proof. exact ul_history_received_go. Qed.
+Print Assumptions c06_receiver_recovers_history_go.
 
 (* ---- (e) a new context resets both counters; without a security context the octets go out unchanged *)
 Theorem c06_new_context_resets :
